@@ -294,6 +294,51 @@ def run(ctx):
                      'valid settings over the real schema, leaves distributed over file (yaml/yml/json/toml) / options dict / -o '
                      'strings / PYDJINNI__ environment, with stale shadowed values in lower-priority sources; the tree handed to '
                      'validation is compared with the model, the validated configuration with the single-dict reference')
+    # ---- K-configure-seq: configure() is a function of (file, options): several calls on the same file in one process
+    n = ctx.n(30, 250)
+    seq_cases, smeta = [], []
+    for i in range(n):
+        s = settings(r)
+        fmt = r.choice(['yaml', 'json', 'toml'])
+        steps = []
+        for _ in range(r.randint(2, 4)):
+            if r.random() < 0.35:
+                steps.append(None)
+            else:
+                steps.append(split_sources(r, settings(r))[1] or None)
+        if all(x is None for x in steps):
+            steps[0] = split_sources(r, settings(r))[1] or {'generate': {'cpp': {'out': 'elsewhere'}}}
+        seq_cases.append({'k': 'configure_seq', 'fmt': fmt, 'file': s, 'steps': steps, 'shared_api': i % 2 == 0})
+        for st in steps:
+            seq_cases.append({'k': 'configure', 'fmt': fmt, 'file': s, 'options': st or {}, 'opts': [], 'env': {}})   # the call on its own, fresh process state
+        smeta.append((s, fmt, steps))
+    ok, res = run_impl('config_ops', {'cases': seq_cases}, timeout=1200)
+    if not ok:
+        ctx.broken.append({'kind': 'harness', 'name': 'config_ops driver (sequences)', 'detail': str(res)}); return
+    items, keep, pos = [], [], 0
+    sdist = {'sequences': len(smeta), 'calls': 0, 'file_only_calls': 0, 'shared_api': sum(1 for c in seq_cases if c.get('shared_api'))}
+    for (s, fmt, steps) in smeta:
+        seq = res['results'][pos]; singles = res['results'][pos + 1: pos + 1 + len(steps)]; pos += 1 + len(steps)
+        if seq.get('r') != 'seq':
+            ctx.broken.append({'kind': 'harness', 'name': 'config_ops configure_seq', 'detail': json.dumps(seq)[:600]}); return
+        for k_, (st, a, b) in enumerate(zip(steps, seq['steps'], singles)):
+            sdist['calls'] += 1; sdist['file_only_calls'] += st is None
+            case = {'file': s, 'fmt': fmt, 'calls_so_far': steps[:k_ + 1], 'shared_api': None}
+            if a['r'] == 'internal':
+                internal_violation(ctx, case, a, 'configure'); continue
+            if a['r'] != b['r'] or (a['r'] == 'ok' and a['v']['config'] != b['v']['config']):
+                ctx.add_violation({'kind': 'configure-depends-on-earlier-calls', 'file_only': st is None},
+                                  'call %d on the same file gives a different configuration than the same call on its own (earlier overrides leak or '
+                                  'the result is cached)' % (k_ + 1), dict(case, observed=a.get('v', a), expected=b.get('v', b)))
+            if a['r'] == 'ok' and a['v'].get('tree') is not None:
+                items.append('(%s, %s, %s, OTree %s)' % (ckvs(s), ckvs(st or {}), cstrs([]), cflat(a['v']['tree'])))
+                keep.append(case)
+    bad = coq_check(ctx, 'configure_seq', 'conf_ok', items)
+    if bad is not None:
+        ctx.add_corr('K-configure-seq', len(items), len(smeta), [keep[i] for i in bad], keep[:1], sdist,
+                     '2-4 configure() calls on ONE configuration file in one process (alternately on one API object and on fresh ones), with and '
+                     'without option overrides: the tree handed to validation is compared with the model for every call, the validated configuration '
+                     'with the same call made on its own')
     # ---- corruptions: must be refused with 141 naming the key (oracle only)
     n = ctx.n(80, 600)
     cor, cmeta = [], []
